@@ -97,13 +97,11 @@ def prop_decoder(ctx, case):
     cname, params, rest = sc
     # (2) literal membership
     check_literals(name, a, e, params, txt)
-    # (4b) the matching START is the most recent one: an earlier unterminated START of the same call changes nothing
     other = distinct_words(name, seed + 777)
+    # (4a) another parser object saw a START of this call on this thread id and never its END (a dump that ends mid-call)
     if other is not None:
-        txt4 = guard(render, name, a, e, lookups, tid=0x44, stale_start=other[0])
-        sc4 = TP.split_call(txt4)
-        if sc4 is None or (sc4[0], sc4[1]) != (cname, params):
-            raise Violation(f'stale-start-used:{name}', f'{name}: with an earlier unterminated START {other[0]} the call renders {txt4!r} instead of {txt!r}')
+        dangling = EV.new_traces_parser()
+        guard(lambda: list(dangling.feed_generator(EV.realize([EV.E(0x44, name, 1, args=other[0])]))))
     # (4) purity: END, tid, timestamps, unrelated nested records
     e2 = list(S.expand_words(seed + 99, 3))
     de = domains.project(name, 2, e2)
@@ -113,6 +111,12 @@ def prop_decoder(ctx, case):
     sc2 = TP.split_call(txt2)
     if sc2 is None or (sc2[0], sc2[1]) != (cname, params):
         raise Violation(f'call-part-impure:{name}', f'{name}: call part changed with END/tid/timestamps/nested records: {txt!r} vs {txt2!r}')
+    # (4b) the matching START is the most recent one: an earlier unterminated START of the same call changes nothing
+    if other is not None:
+        txt4 = guard(render, name, a, e, lookups, tid=0x44, stale_start=other[0])
+        sc4 = TP.split_call(txt4)
+        if sc4 is None or (sc4[0], sc4[1]) != (cname, params):
+            raise Violation(f'stale-start-used:{name}', f'{name}: with an earlier unterminated START {other[0]} the call renders {txt4!r} instead of {txt!r}')
     # (1) position sensitivity
     for k in range(4):
         b = list(a)
